@@ -19,6 +19,26 @@ NA = {
 }
 
 CHECKS = {
+ 'C05': dict(
+   technique='deterministic simulation: per-transition refinement of the four simulator cores against an executable reference Z80 (RefZ80) during simulated machine runs',
+   text='Seeded exploration: every dispatch slot of every engine is executed from generated states (boundary-biased) and inside generated programs with scheduler-chosen interrupts; each executed transition must match RefZ80 on registers, documented flags, memory writes, port events and T-states. Sampling of operand spaces, not proof; no fault dimension exists for a single instruction (see DESIGN.md 5/C05).',
+   note='Trusts RefZ80 (written from the Zilog manual, independent of SkoolKit tables). Bits 3/5 of F, MEMPTR, documented-undefined flags, the IM result of ED4E/ED6E and the vector-read/push order on interrupt overlap are not judged.',
+   ref='DESIGN.md section 5, C05'),
+ 'C06': dict(
+   technique='deterministic simulation: lock-step replicas (Simulator, fast-path Simulator, CSimulator, CMIOSimulator, CCMIOSimulator) on one seeded world, "replicas never diverge" after every event',
+   text='Seeded exploration of programs, start states, port values, tracer configurations and interrupt landing points; all implementations are stepped in lock step on the same world and must stay bit-identical (registers incl. R/T/IFF/IM/HALT, MEMPTR within the contended pair, RAM, port-access sequence).',
+   note='Replicas are reset in place between scenarios; C modules are rebuilt from c/csimulator.c for every run. One known finding (128K without a tracer) is attributed counterfactually.',
+   ref='DESIGN.md section 5, C06'),
+ 'C08': dict(
+   technique='deterministic simulation: safety invariants monitored after every event of lock-step runs + pager histories against a reference paging model',
+   text='Seeded exploration: ROM digests, register/cell ranges, clock monotonicity and the 128K mapping (reference pager driven by the replica\'s own OUT log) are checked after every event of runs that aim stores and paging writes at the boundaries.',
+   note='C-side bank pointers are observed through executed loads and the Python-visible Memory object, not private fields.',
+   ref='DESIGN.md section 5, C08'),
+ 'C19': dict(
+   technique='deterministic simulation: plain/contended twin engines stepped from identical states at seeded frame positions; delay oracle = RefULA folded over RefZ80 bus cycles',
+   text='Seeded exploration over dispatch slots x frame positions x address placements: each contended step must equal its plain twin (T/MEMPTR aside), never be faster, and be slower by exactly the reference ULA delay for the reference bus-cycle list.',
+   note='Trusts RefZ80 cycle lists and RefULA (written from the published contention description). For the OTIR/OTDR repeat cycles both readings of "bc" (before/after the decrement of B) are accepted.',
+   ref='DESIGN.md section 5, C19'),
  'C10': dict(
    technique='deterministic simulation: crash-restart at seeded instruction boundaries, oracle = uninterrupted run',
    text='Seeded exploration of crash points: generated programs are run by the real trace.py once uninterrupted and once as a chain of legs that survive only through the SZX/Z80 files they write; final simulator states must agree. Evidence, not proof: crash points, programs, machines and engines are sampled with boundary bias.',
